@@ -26,7 +26,10 @@ RULE = ("RawSocket opening handshake: EVERY value of octets 1-2 (2^16) x {server
         "segmentation policies plus bursts (2..6 data_received() calls inside one read event before the asyncio loop runs, cut between "
         "frames / inside headers and payloads / both; delivery judged right after the last read event and again after the connection is "
         "gone) (library<->library and library<->raw octets), serialized lengths limit-1/limit/limit+1 for announced "
-        "exponents 2^9..2^24, corruption (frame type, opcode flip, garbage, truncation, non-list, unknown type, out-of-phase, session "
+        "exponents 2^9..2^24, the send issued from three sites: from outside after the handshake, from INSIDE ISession.onOpen(transport) "
+        "(like HELLO) and from INSIDE the first onMessage() (triggering frame glued to the peer's handshake octets or in its own read; "
+        "handshake octets cut by 5 policies), against raw peers (exponents 9..20 + 24 quick, 9..24 thorough) and between two library "
+        "endpoints with their own configured maxima (Twisted), corruption (frame type, opcode flip, garbage, truncation, non-list, unknown type, out-of-phase, session "
         "exceptions) at every position of a short conversation; mixed Twisted<->asyncio pairs (both role assignments) through a "
         "cross-process lockstep relay.  A case is non-trivial when its deciding monitor judged an outcome "
         "(handshake decided, negotiation compared, delivery compared, limit outcome judged, closure + onClose count judged); distinct = "
@@ -54,6 +57,11 @@ ASSUMPTIONS = [
     "lockstep (it owns segmentation and ordering); covered there: negotiation, message sequences both ways, refusal, clean close - "
     "limits and corruption are exercised per framework against the framework-independent wire references only",
     "flatbuffers takes part in the negotiation only (no message exchange)",
+    "send sites: a stub session sends from inside onOpen()/onMessage() with try/except around each transport.send() (what careful session "
+    "code does); the announced maximum is judged from the first callback the session gets, because the statement says 'never'.  Whether the "
+    "transport survives a REFUSED (over-limit) send is not asserted; a transport that closes although everything sent was within the limit "
+    "is.  WAMP-over-WebSocket announces no maximum in its handshake, so the send/receive limit clauses are RawSocket-only; sends from "
+    "inside onOpen() over WebSocket are covered by the message-conservation scenarios (raw-stream 'outbound', pair-stream 'open_send')",
 ]
 DECIDING = {
     "hs_decided": 100000, "hs_attached": 1000, "hs_refused": 50000, "partial_checked": 50000, "server_reply_checked": 500,
@@ -61,6 +69,7 @@ DECIDING = {
     "stream_msgs_compared": 2000, "wire_frames_checked": 300, "limit_send_over": 40, "limit_send_within": 80,
     "limit_recv_within": 4, "limit_recv_over_rejected": 10, "corrupt_cases": 800, "corrupt_cases_closed_once": 700,
     "ws_status_checked": 300, "rs_close_checked": 200, "onclose_checked": 100000, "mixed_delivered_ok": 60, "mixed_refused": 4, "open_raise_onclose_checked": 100, "aio_bursts_delivered": 200,
+    "limit_send_over_onopen": 60, "limit_send_within_onopen": 120, "limit_send_over_onmessage": 60, "limit_send_within_onmessage": 120,
 }
 
 BASE = ["json", "msgpack", "cbor", "ubjson"]
@@ -143,6 +152,8 @@ def shards(tier, seed):
         add("mixed", {"what": "mixed"})
         add("corrupt", {"what": "corrupt"})
         add("limits", {"what": "limits", "part": 0, "parts": 1 if not thorough else 4})
+        for i in range(2 if thorough else 1):
+            add("sites-%d" % i, {"what": "sites", "part": i, "parts": 2 if thorough else 1})
         if thorough:
             for i in range(1, 4):
                 add("limits-%d" % i, {"what": "limits", "part": i, "parts": 4})
@@ -275,6 +286,47 @@ def gen_limits(tier, seed, fw, part, parts):
         cases.append({"kind": "rs-limit-pair", "ser": rot, "smax": None, "cmax": None, "deltas": [-1], "seed": seed, "policy": "whole"})
     # big cases first spread over the parts
     cases.sort(key=lambda c: -(c.get("exp") or (c.get("max_size") or 2 ** 24).bit_length()))
+    return [c for i, c in enumerate(cases) if i % parts == part]
+
+
+def gen_limit_sites(tier, seed, fw, part, parts):
+    """The send-side limit by WHERE the session issues the send: from inside onOpen(transport) (like HELLO) and from inside the first
+    onMessage() (triggering frame glued to the peer's handshake octets or in its own read), lengths limit-1/limit/limit+1."""
+    rng = random.Random("limit-sites/%s/%d" % (fw, seed))
+    cases = []
+    rot = BASE[(seed + 1) % 4]
+    mk = ["publish", "event", "call", "result", "yield", "error", "invocation"]
+    hs_pol = ["whole", "bytewise", "halves", "random", "small"]
+    thorough = tier == "thorough"
+    exps_all = [9, 10, 12, 16] if not thorough else list(range(9, 21))
+    exps_rot = list(range(9, 21)) if not thorough else list(range(21, 25))
+    k = seed
+    for role in ("server", "client"):
+        for site in ("open", "message"):
+            for exp in sorted(set(exps_all + exps_rot)):
+                for ser in (BASE if exp in exps_all else [rot]):
+                    for d in (-1, 0, 1):
+                        for rep in range(2 if (thorough and exp <= 16) else 1):
+                            k += 1
+                            cases.append({"kind": "rs-limit-send", "site": site, "role": role, "ser": ser, "exp": exp, "delta": d,
+                                          "mkind": rng.choice(mk), "policy": hs_pol[k % len(hs_pol)], "glue": bool((k // len(hs_pol) + rep) % 2),
+                                          "seed": rng.randint(0, 10 ** 6),
+                                          "max_size": rng.choice([None, 512, 2 ** 16]) if fw == "tx" else None})
+    if not thorough:
+        # the top exponent once per run and site (16 MiB messages)
+        cases.append({"kind": "rs-limit-send", "site": "open", "role": ("client", "server")[seed % 2], "ser": rot, "exp": 24, "delta": 1,
+                      "mkind": "publish", "policy": "halves", "glue": True, "seed": seed})
+        cases.append({"kind": "rs-limit-send", "site": "message", "role": ("server", "client")[seed % 2], "ser": BASE[(seed + 2) % 4], "exp": 24,
+                      "delta": 1, "mkind": "publish", "policy": "whole", "glue": bool(seed % 2), "seed": seed})
+    if fw == "tx":
+        # both ends the library, each with its own configured maximum (asyncio cannot configure one)
+        pairs = [(512, 2048), (4096, 512), (2 ** 16, 1000), (None, 2 ** 12)] if not thorough else \
+            [(512, 2048), (4096, 512), (2 ** 16, 1000), (None, 2 ** 12), (2 ** 20, 2 ** 18), (2 ** 10, 2 ** 10), (2 ** 22, None), (777, 99999)]
+        for smax, cmax in pairs:
+            for ser in BASE:
+                cases.append({"kind": "rs-limit-pair-open", "ser": ser, "smax": smax, "cmax": cmax, "deltas": [-1, 0, 1], "seed": rng.randint(0, 999),
+                              "policy": rng.choice(POLICIES)})
+    cases.sort(key=lambda c: -(c.get("exp") or 0))
     return [c for i, c in enumerate(cases) if i % parts == part]
 
 
@@ -455,6 +507,8 @@ def run_shard(params, R):
         gens = [gen_streams(tier, seed, fw)]
     elif what == "limits":
         gens = [gen_limits(tier, seed, fw, params["part"], params["parts"])]
+    elif what == "sites":
+        gens = [gen_limit_sites(tier, seed, fw, params["part"], params["parts"])]
     elif what == "corrupt":
         gens = [gen_corrupt(tier, seed, fw)]
     elif what == "mixed":
@@ -495,7 +549,8 @@ MANIFEST_ENTRY = {
              "handshake; WebSocket subprotocol = first of the client's list the server supports for all pairs of ordered serializer lists "
              "(<=2, thorough <=3), same serializer and text/binary framing on the wire at both ends, no session without a common "
              "wamp.2.*; tagged message sequences delivered intact and in order under 6 segmentation policies and under bursts of several data_received() calls per read event; for announced maxima "
-             "2^9..2^24 nothing longer than the peer's maximum is written (sender gets an error) and an over-limit incoming frame is "
+             "2^9..2^24 nothing longer than the peer's maximum is written (sender gets an error) - whether the session sends after the "
+             "handshake, from inside onOpen() or from inside its first onMessage() - and an over-limit incoming frame is "
              "rejected at its header; every injected corruption (frame type, opcode flip, garbage/truncated/non-list payload, unknown "
              "message type, out-of-phase message, session exception) ends with the transport closed (WebSocket 1002/1011) and "
              "onClose exactly once. Held = no deviation on the executions listed in the evidence; not a proof."),
